@@ -29,6 +29,10 @@ def systematic():
                     xs = [CODES[(i * 3 + n) % len(CODES)] for i in range(n)]
                     out.append({'which': which, 'src': {'kind': kind, 'xs': xs, 'fail_at': fail_at},
                                 'strategy': {'kind': 'replay', 'prefix': []}})
+                    if which == 'to_sync' and n in (0, 2, 5):
+                        for own in ('fresh', 'reused'):
+                            out.append({'which': which, 'src': {'kind': kind, 'xs': xs, 'fail_at': fail_at},
+                                        'own_loop': own, 'strategy': {'kind': 'replay', 'prefix': []}})
     return out
 
 
@@ -45,8 +49,11 @@ def gen(rng, n):
             fail_at = rng.choice([None, None] + list(range(0, ln + 1)))
             if rng.random() < 0.6:
                 steps = [rng.choice([0.0, 0.0, 1.0, 2.0, 4.0]) for _ in range(ln)]
-        out.append({'which': which, 'src': {'kind': kind, 'xs': xs, 'fail_at': fail_at, 'steps': steps},
-                    'consume_delay': rng.choice([0.0, 0.0, 0.0, 1.0, 3.0]), 'strategy': strat(rng)})
+        sc = {'which': which, 'src': {'kind': kind, 'xs': xs, 'fail_at': fail_at, 'steps': steps},
+              'consume_delay': rng.choice([0.0, 0.0, 0.0, 1.0, 3.0]), 'strategy': strat(rng)}
+        if which == 'to_sync' and rng.random() < 0.3:
+            sc['own_loop'] = rng.choice(['fresh', 'reused'])
+        out.append(sc)
     return out
 
 
